@@ -665,3 +665,30 @@ func InStmt(st ast.Node) func(b *cfg.Block) bool {
 		return b.Stmt != nil && st.Pos() <= b.Stmt.Pos() && b.Stmt.End() <= st.End()
 	}
 }
+
+// Between returns the locations that lie on some path from a to b (both exclusive) that
+// does not pass through a again.
+func (g *Graph) Between(a, b Loc) []Loc {
+	var fwd []Loc
+	g.Walk(a, func(n ast.Node, l Loc) bool {
+		if l == a || l == b {
+			return true
+		}
+		fwd = append(fwd, l)
+		return false
+	})
+	var out []Loc
+	for _, l := range fwd {
+		found := false
+		g.Walk(l, func(n ast.Node, x Loc) bool {
+			if x == b {
+				found = true
+			}
+			return found || x == a
+		})
+		if found {
+			out = append(out, l)
+		}
+	}
+	return out
+}
